@@ -118,5 +118,11 @@ Proof.
   destruct (_ && _); discriminate.
 Qed.
 
+Lemma expovariate_Done : forall rate r q r', expovariate rate r = Done q r' -> d_exp rate r = Done q r'.
+Proof. intros rate r q r' H. unfold expovariate in H. destruct (Qeq_bool rate 0); [discriminate|exact H]. Qed.
+
+Lemma expovariate_fuel : forall rate r, expovariate rate r <> NoFuel.
+Proof. intros rate r. unfold expovariate. destruct (Qeq_bool rate 0); [discriminate|apply d_exp_fuel]. Qed.
+
 Ltac step H := let a := fresh "a" in let r := fresh "r" in let H1 := fresh "Hs" in
   apply bnd_Done in H; destruct H as (a & r & H1 & H).
